@@ -288,3 +288,101 @@ def fs_write_frame(repo, rel, allowed, tag='fs'):
                         'detail': '' if ok else 'file-system updates %r, allowed %r' % (sites, want), 'fn': '%s:%s' % (rel, qn), 'site': '%s:%s' % (rel, qn),
                         'witness': None if ok else {'file': rel, 'function': qn, 'statements': sites, 'allowed': want}})
     return records
+
+
+MUTABLE_CTORS = ('list', 'dict', 'set', 'Counter', 'defaultdict', 'OrderedDict', 'deque', 'bytearray')
+
+
+def _is_mutable_value(v):
+    if isinstance(v, (ast.List, ast.Dict, ast.Set, ast.ListComp, ast.DictComp, ast.SetComp)):
+        return True
+    if isinstance(v, ast.Call):
+        f = v.func
+        name = f.id if isinstance(f, ast.Name) else (f.attr if isinstance(f, ast.Attribute) else '')
+        return name in MUTABLE_CTORS
+    return False
+
+
+def shared_state_frame(repo, files, tag='state'):
+    """Frame obligation "no state is shared between objects or between calls": per class, no class-level attribute holds a mutable value
+    (such a value is shared by every instance); per module, no function rebinds (global statement) or updates in place a module-level
+    name that holds a mutable value.  What a run emits is then a function of the object it was built from, not of what else the process did."""
+    records = []
+    for rel in files:
+        path = os.path.join(repo, rel)
+        base = '%s.frame.%s' % (tag, rel.replace('/', '.').replace('.py', ''))
+        if not os.path.exists(path):
+            records.append({'name': base + '.<file>', 'ok': False, 'detail': 'file is missing', 'site': rel})
+            continue
+        with open(path, encoding='utf-8') as fh:
+            tree = ast.parse(fh.read())
+        mod_mutable = set()
+        for n in tree.body:
+            if isinstance(n, ast.Assign) and _is_mutable_value(n.value):
+                for t in n.targets:
+                    if isinstance(t, ast.Name):
+                        mod_mutable.add(t.id)
+            if isinstance(n, ast.AnnAssign) and n.value is not None and _is_mutable_value(n.value) and isinstance(n.target, ast.Name):
+                mod_mutable.add(n.target.id)
+        for n in ast.walk(tree):
+            if isinstance(n, ast.ClassDef):
+                bad = []
+                for st in n.body:
+                    tg = st.targets if isinstance(st, ast.Assign) else ([st.target] if isinstance(st, ast.AnnAssign) and st.value is not None else [])
+                    if tg and _is_mutable_value(st.value):
+                        bad.append((st.lineno, ast.unparse(st)[:80]))
+                records.append({'name': '%s.class.%s' % (base, n.name), 'ok': not bad,
+                                'detail': '; '.join('line %d: class-level mutable attribute %s' % b for b in bad), 'fn': '%s:%s' % (rel, n.name),
+                                'site': '%s:%s' % (rel, n.name), 'witness': None if not bad else {'file': rel, 'class': n.name, 'statements': bad}})
+        bad = []
+        for fn in ast.walk(tree):
+            if not isinstance(fn, (ast.FunctionDef, ast.AsyncFunctionDef)):
+                continue
+            local = {a.arg for a in fn.args.args} | {a.arg for a in fn.args.kwonlyargs}
+            for n in ast.walk(fn):
+                if isinstance(n, ast.Assign):
+                    for t in n.targets:
+                        if isinstance(t, ast.Name):
+                            local.add(t.id)
+            globs = set()
+            for n in ast.walk(fn):
+                if isinstance(n, ast.Global):
+                    globs.update(n.names)
+            for n in ast.walk(fn):
+                if isinstance(n, ast.Global):
+                    bad.append((n.lineno, '%s(): global %s' % (fn.name, ', '.join(n.names))))
+                tgts = n.targets if isinstance(n, (ast.Assign, ast.Delete)) else ([n.target] if isinstance(n, ast.AugAssign) else [])
+                for t in tgts:
+                    cur, steps = t, 0
+                    while isinstance(cur, (ast.Subscript, ast.Attribute)):
+                        cur, steps = cur.value, steps + 1
+                    if isinstance(cur, ast.Name) and steps > 0 and cur.id in mod_mutable and (cur.id not in local or cur.id in globs):
+                        bad.append((n.lineno, '%s(): store into module-level %s' % (fn.name, cur.id)))
+                if isinstance(n, ast.Call) and isinstance(n.func, ast.Attribute) and n.func.attr in MUTATORS:
+                    cur = n.func.value
+                    while isinstance(cur, (ast.Subscript, ast.Attribute)):
+                        cur = cur.value
+                    if isinstance(cur, ast.Name) and cur.id in mod_mutable and (cur.id not in local or cur.id in globs):
+                        bad.append((n.lineno, '%s(): in-place update of module-level %s' % (fn.name, cur.id)))
+        records.append({'name': '%s.module' % base, 'ok': not bad, 'detail': '; '.join('line %d: %s' % b for b in sorted(set(bad))), 'fn': rel, 'site': rel,
+                        'witness': None if not bad else {'file': rel, 'statements': sorted(set(bad))}})
+    return records
+
+
+def state_frame_for(pid, files):
+    """effects function for a Prop: the shared-state frame over `files`, obligation names prefixed with the property id"""
+    def run(repo):
+        recs = shared_state_frame(repo, files)
+        for r in recs:
+            r['name'] = '%s.%s' % (pid, r['name'])
+        return recs
+    return run
+
+
+def combine(*fns):
+    def run(repo):
+        out = []
+        for f in fns:
+            out.extend(f(repo))
+        return out
+    return run
